@@ -13,6 +13,8 @@ mod fam_a;
 mod fam_b;
 mod fam_c;
 mod fam_d;
+mod fam_e;
+mod httpd;
 mod interpose;
 mod model;
 mod pool;
@@ -78,6 +80,7 @@ pub fn checks() -> Vec<CheckDef> {
     v.extend(fam_c::checks());
     v.extend(fam_b::checks());
     v.extend(fam_d::checks());
+    v.extend(fam_e::checks());
     v
 }
 
@@ -88,6 +91,10 @@ pub fn find_check(id: &str) -> Option<CheckDef> {
 pub const DEFAULT_SEED: u64 = 20260923;
 
 fn main() {
+    // the HTTP client must talk to the loopback listener directly
+    for v in ["HTTP_PROXY", "http_proxy", "HTTPS_PROXY", "https_proxy", "ALL_PROXY", "all_proxy"] {
+        std::env::remove_var(v);
+    }
     let args: Vec<String> = std::env::args().collect();
     let code = match args.get(1).map(|s| s.as_str()) {
         Some("check") => pool::cmd_check(&args[2..]),
